@@ -21,6 +21,10 @@ META, UPD, TREE, ITEM = 0, 1, 2, 3
 IDX = 7
 
 INLINE = e2_tree.INLINE + [
+    (re.compile(r"^Writer::<D>::is_empty$"), r"writer::.*::is_empty$"),
+    (re.compile(r"^Writer::<D>::iter$"), r"writer::.*::iter$"),
+    (re.compile(r"^<ItemIter<'_, D> as Iterator>::next$"), r"item_iter::.*::next$"),
+    (re.compile(r"^Writer::<D>::need_build$"), r"writer::.*::need_build$"),
     (re.compile(r"^clear_tree_nodes::<D>$"), r"^clear_tree_nodes$"),
     (re.compile(r"^key::Prefix::(item|tree|updated|all)$"), r"key::<impl at [^>]*>::{name}$", "-> key::Prefix"),
     (re.compile(r"^Key::metadata$"), r"key::.*::metadata$", "-> Key"),
@@ -79,7 +83,7 @@ def kv_models(src_codec, dst_codec, same_metric):
     def _(eng, st, callee, a, ty):
         return one(Opaque("Database"))
 
-    @reg(r"^RwPrefix::<.*>::(remap_key_type|remap_types|remap_data_type)::<")
+    @reg(r"^R[ow](Prefix|Range)::<.*>::(remap_key_type|remap_types|remap_data_type)::<")
     def _(eng, st, callee, a, ty):
         return one(a[0])
 
@@ -91,7 +95,34 @@ def kv_models(src_codec, dst_codec, same_metric):
         st.env["log"].append(("delete", k))
         return one(mk_ok(z3.BoolVal(existed)))
 
-    @reg(r"^heed::Database::<.*>::prefix_iter_mut::<")
+    @reg(r"^heed::Database::<.*>::range(_mut)?::<")
+    def _(eng, st, callee, a, ty):
+        r = eng.deref(a[2])
+        if r.kind == "Range":
+            lo, hi, inc = concrete_key(eng, Ref(Cell(r.f[0]))), concrete_key(eng, Ref(Cell(r.f[1]))), False
+        elif r.kind == "RangeInclusive":
+            lo, hi, inc = concrete_key(eng, Ref(Cell(r.f[0]))), concrete_key(eng, Ref(Cell(r.f[1]))), True
+        else:
+            raise E.Unknown("range bounds of kind " + r.kind)
+        return one(mk_ok(Opaque("Cursor", {"index": None, "mode": None, "cur": None, "lo": lo, "hi": hi, "inc": inc})))
+
+    @reg(r"^RangeInclusive::<Key>::new$")
+    def _(eng, st, callee, a, ty):
+        return one(Agg("RangeInclusive", None, {0: a[0], 1: a[1]}))
+
+    @reg(r"^(?:std::result::)?Result::<.*>::map::<.*\{closure@")
+    def _(eng, st, callee, a, ty):
+        r, f = a
+        if z3.is_true(z3.simplify(r.disc == BV(0, 64))):
+            from mirsym.models import call_fn_item
+            v = call_fn_item(eng, f, [r.f[0]])
+            if type(v).__name__ == "PushCall":
+                # the closure's result must be wrapped in Ok: run it through a tiny continuation
+                st.env["wrap_ok"] = True
+            return one(WrapOk(v) if type(v).__name__ == "PushCall" else mk_ok(v))
+        return one(r)
+
+    @reg(r"^heed::Database::<.*>::prefix_iter(_mut)?::<")
     def _(eng, st, callee, a, ty):
         p = eng.deref(a[2])
         idx = z3.simplify(p.f[0])
@@ -104,12 +135,18 @@ def kv_models(src_codec, dst_codec, same_metric):
         cur = Opaque("Cursor", {"index": idx.as_long(), "mode": m, "cur": None})
         return one(mk_ok(cur))
 
-    @reg(r"^<RwPrefix<'_, .*> as Iterator>::next$")
+    @reg(r"^<R[ow](Prefix|Range)<'_, .*> as Iterator>::next$")
     def _(eng, st, callee, a, ty):
         c = eng.deref(a[0])
+        if isinstance(c, Agg):          # ItemIter { inner }
+            c = c.f[0]
         d = c.data
-        keys = sorted(k for k in st.env["kv"] if k[0] == d["index"] and (d["mode"] is None or k[1] == d["mode"])
-                      and (d["cur"] is None or k > d["cur"]))
+        if "lo" in d:
+            keys = sorted(k for k in st.env["kv"] if k >= d["lo"] and (k <= d["hi"] if d["inc"] else k < d["hi"])
+                          and (d["cur"] is None or k > d["cur"]))
+        else:
+            keys = sorted(k for k in st.env["kv"] if k[0] == d["index"] and (d["mode"] is None or k[1] == d["mode"])
+                          and (d["cur"] is None or k > d["cur"]))
         if not keys:
             return one(mk_option())
         k = keys[0]
@@ -128,7 +165,7 @@ def kv_models(src_codec, dst_codec, same_metric):
             return one(mk_ok(mk_option(r.f[0])))
         return one(mk_err(r.f[0]))
 
-    @reg(r"^RwPrefix::<.*>::del_current$")
+    @reg(r"^Rw(Prefix|Range)::<.*>::del_current$")
     def _(eng, st, callee, a, ty):
         c = eng.deref(a[0]).data
         if c["cur"] is None or c["cur"] not in st.env["kv"]:
@@ -137,7 +174,7 @@ def kv_models(src_codec, dst_codec, same_metric):
         st.env["log"].append(("del_current", c["cur"]))
         return one(mk_ok(z3.BoolVal(True)))
 
-    @reg(r"^RwPrefix::<.*>::put_current_with_options::<|^RwPrefix::<.*>::put_current$")
+    @reg(r"^Rw(Prefix|Range)::<.*>::put_current_with_options::<|^Rw(Prefix|Range)::<.*>::put_current$")
     def _(eng, st, callee, a, ty):
         c = eng.deref(a[0]).data
         kref, vref = (a[2], a[3]) if "with_options" in callee else (a[1], a[2])
@@ -205,7 +242,14 @@ def kv_models(src_codec, dst_codec, same_metric):
     return ms
 
 
-def database(dim, src_codec):
+class WrapOk:
+    """marker: a PushCall whose return value must be wrapped into Result::Ok"""
+
+    def __init__(self, push):
+        self.push = push
+
+
+def database(dim, src_codec, with_items=True):
     stored = dim if src_codec == "f32" else words(dim)
     kv = {
         (IDX, META, 0): Opaque("metadata", {"of": IDX}),
@@ -221,21 +265,23 @@ def database(dim, src_codec):
         (IDX + 1, TREE, 0): Opaque("tree", {"id": "n2"}),
         (IDX + 1, ITEM, 3): Opaque("leaf", {"id": "n3"}),
     }
+    if not with_items:
+        kv = {k: v for k, v in kv.items() if not (k[0] == IDX and k[1] == ITEM)}
     return kv
 
 
-def run_change(ctx, src_codec, dst_codec, same_metric, deadline):
+def run_change(ctx, src_codec, dst_codec, same_metric, deadline, with_items=True):
     res = {"paths": 0, "violations": [], "unknown": [], "shapes": []}
     eng = E.Engine(ctx.fns, ctx.structs, ctx.enums, kv_models(src_codec, dst_codec, same_metric) + list(M.REGISTRY),
                    INLINE, max_depth=3, max_steps=3000)
     fn = find_fn(ctx.fns, r"writer::.*::prepare_changing_distance$")
     dim = z3.BitVec("dimensions", 64)
     pc = [z3.UGE(dim, 1), z3.ULE(dim, 130)]
-    kv = database(dim, src_codec)
+    kv = database(dim, src_codec, with_items)
     before = dict(kv)
     writer = Agg("Writer", None, {0: Opaque("Database"), 1: BV(IDX, 16), 2: dim, 3: Agg("Option", BV(0, 64), {})})
     finals = eng.run(fn, [writer, Ref(Cell(Opaque("RwTxn")))], env={"kv": kv, "log": []}, pc=pc, deadline=deadline)
-    label = f"{src_codec}->{dst_codec}" + (" (same metric)" if same_metric else "")
+    label = f"{src_codec}->{dst_codec}" + (" (same metric)" if same_metric else "") + ("" if with_items else " (index without items)")
     for f in finals:
         res["paths"] += 1
 
@@ -325,9 +371,9 @@ def obligation(o, tier, seed):
     except RuntimeError as e:
         return [Outcome(o["id"], "mirsym", "inconclusive", str(e))]
     total = None
-    for src, dst, same in (("f32", "f32", False), ("f32", "bq", False), ("bq", "f32", False), ("bq", "bq", False),
-                           ("f32", "f32", True)):
-        r = run_change(ctx, src, dst, same, time.time() + 300)
+    for src, dst, same, items in (("f32", "f32", False, True), ("f32", "bq", False, True), ("bq", "f32", False, True),
+                                  ("bq", "bq", False, True), ("f32", "f32", True, True), ("f32", "bq", False, False)):
+        r = run_change(ctx, src, dst, same, time.time() + 300, items)
         if total is None:
             total = r
         else:
@@ -342,6 +388,11 @@ def obligation(o, tier, seed):
 
 def metric_scenario(v):
     vals = v["values"]
-    if vals.get("from") == "bq" and vals.get("to") == "f32":
-        return f"change_metric from=bq_euclidean to=euclidean dim={vals.get('dimensions', 3)}\n"
-    return None
+    pair = {("f32", "f32"): ("euclidean", "cosine"), ("f32", "bq"): ("euclidean", "bq_euclidean"),
+            ("bq", "f32"): ("bq_euclidean", "euclidean"), ("bq", "bq"): ("bq_euclidean", "bq_cosine")}.get(
+        (vals.get("from"), vals.get("to")))
+    if pair is None:
+        return None
+    empty = 1 if "without items" in v["shape"] else 0
+    dim = max(2, int(vals.get("dimensions", 3)))
+    return f"change_metric from={pair[0]} to={pair[1]} dim={dim} items=1,2,3,4294967295 empty={empty}\n"
